@@ -526,8 +526,11 @@ func (w *W) Invariants() {
 			}
 		}
 		// C02 conservation: outstanding + locked + LN out (incl. whole fee limit) <= LN in + internal settlements
+		// (evaluated in msat: invoices need not be whole sats)
+		thousand := big.NewInt(1000)
 		outstanding := new(big.Int).Sub(ti, tr) // unspent + pending-locked value signed by the mint
-		so, inflight := w.LN.SumOut("a")
+		outstanding.Mul(outstanding, thousand)
+		so, inflight := w.LN.SumOutMsat("a")
 		lhs := new(big.Int).Add(outstanding, new(big.Int).SetUint64(so))
 		// value locked in pending melts is still counted in `outstanding` and is also (amount+feeLimit) in flight;
 		// count the in-flight payment only for what exceeds the locked inputs
@@ -537,14 +540,16 @@ func (w *W) Invariants() {
 				locked.Add(locked, new(big.Int).SetUint64(p.P.Amount))
 			}
 		}
+		locked.Mul(locked, thousand)
 		infl := new(big.Int).SetUint64(inflight)
 		if infl.Cmp(locked) > 0 {
 			lhs.Add(lhs, new(big.Int).Sub(infl, locked))
 		}
 		rhs := new(big.Int).SetUint64(w.LN.SumIn("a"))
 		rhs.Add(rhs, new(big.Int).SetUint64(w.InternalSettled))
+		rhs.Mul(rhs, thousand)
 		if lhs.Cmp(rhs) > 0 {
-			w.viol("C02", "conservation", "outstanding %s + LN out %d (+ in-flight beyond locked) = %s exceeds LN in + internal %s", outstanding, so, lhs, rhs)
+			w.viol("C02", "conservation", "outstanding %s msat + Lightning out %d msat incl. fee limits (+ in-flight beyond locked) = %s msat exceeds Lightning in + internal settlements %s msat", outstanding, so, lhs, rhs)
 		}
 	}
 	// keysets (C09): exactly one active, every seen keyset still listed identically
